@@ -167,6 +167,33 @@ impl Check for C03 {
             }
         }
         self.run_dev_batch(ctx, std::mem::take(&mut batch))?;
+        // (2b) pumping: a unit repeated many times (flat repetition, no nesting)
+        let units: [&str; 34] = [
+            "\n", ";", " ", "\t", "\r\n", "# c\n", ";\n", "\n\n ", "x\n", "x;", "1\n", "\"a\"\n", "x := 1\n", "print(1)\n", "_", "1", "a", "é", "\"",
+            "$", "\\", "(", ")", "[", "]", "{", "}", ".", ",", "=", "!", "&", "-", "+ 1",
+        ];
+        let reps: Vec<usize> = if ctx.tier == Tier::Thorough { vec![1_000, 20_000, 200_000] } else { vec![1_000, 20_000] };
+        let mut n_pump = 0u64;
+        for u in units {
+            for &n in &reps {
+                let body: String = u.repeat(n);
+                for (pre, post) in [("print(\"S\")\n", "\nprint(\"E\")\n"), ("print(\"S\")\nx := 1", "\n")] {
+                    let src = format!("{}{}{}", pre, body, post);
+                    let mut c = Case::new(src.clone(), 7, format!("{:?} repeated {} times", u, n));
+                    c.mode = Mode::Tokens;
+                    c.no_ref = true;
+                    batch.push(c);
+                    // only flat statement sequences are executed (no deep expression trees)
+                    if ["\n", ";", " ", "\t", "\r\n", "# c\n", ";\n", "\n\n ", "x := 1\n", "print(1)\n", "1\n", "\"a\"\n"].contains(&u) && n <= 20_000 && !(u == "x := 1\n") {
+                        let mut c = Case::new(src, 8, format!("{:?} repeated {} times (run)", u, n));
+                        c.no_ref = true;
+                        batch.push(c);
+                    }
+                    n_pump += 1;
+                }
+            }
+        }
+        ctx.judge(std::mem::take(&mut batch), |c, r, o| self.oracle(c, r, o))?;
         // (3) invalid UTF-8 through the CLI
         let mut n_utf = 0u64;
         let bad_seqs: Vec<Vec<u8>> = {
@@ -227,7 +254,7 @@ impl Check for C03 {
         ctx.extra.insert(
             "bounds".into(),
             json!({"alphabet": SIGMA.len(), "max_length": max_len, "strings": n_strings, "deviation_k": 1, "deviated_programs": progs,
-                   "deviation_inputs": n_dev, "edit_alphabet": sigma.len(), "invalid_utf8_inputs": n_utf}),
+                   "deviation_inputs": n_dev, "pumped_inputs": n_pump, "edit_alphabet": sigma.len(), "invalid_utf8_inputs": n_utf}),
         );
         Ok(())
     }
@@ -284,6 +311,29 @@ impl Check for C03 {
                 let ref_ok = parse_prog(&c.src).is_ok();
                 if accepted != ref_ok {
                     return viol("accept-reject", format!("{:?}: real front end {} the text, the reference front end {} it ({:?})", c.src, if accepted { "accepts" } else { "rejects" }, if ref_ok { "accepts" } else { "rejects" }, parse_prog(&c.src).err()));
+                }
+                Verdict::Pass
+            }
+            7 => {
+                // the scanner alone: it must get through the input (tokens or one lexical error)
+                let dump = o.out_str();
+                let last = dump.lines().last().unwrap_or("");
+                let (raw, err) = lex_raw(&c.src);
+                let want = crate::refm::lex::suppress_terminators(raw).len() + if err.is_some() { 1 } else { 0 };
+                let got = dump.lines().count();
+                if got != want {
+                    return viol("pumping", format!("{}: the scanner produced {} tokens, the reference scanner {} (last line {:?})", c.meta, got, want, last.chars().take(80).collect::<String>()));
+                }
+                Verdict::Pass
+            }
+            8 => {
+                let ran = o.out_str().starts_with("S\n");
+                let ref_ok = parse_prog(&c.src).is_ok();
+                if ran != ref_ok {
+                    return viol("pumping", format!("{}: reference front end {} the text, but the first statement {}", c.meta, if ref_ok { "accepts" } else { "rejects" }, if ran { "ran" } else { "did not run" }));
+                }
+                if !ran {
+                    return front_contract(c, o, false);
                 }
                 Verdict::Pass
             }
